@@ -58,7 +58,7 @@ func TestVerif_C09(t *testing.T) {
 		r.SetExtra("failpoint_missing", true)
 	}
 
-	n := r.N(300, 1200)
+	n := r.N(300, 800)
 	r.Cases("flow", n, func(c *verifrt.Case) {
 		synctest.Test(t, func(t *testing.T) {
 			defer func() {
